@@ -125,6 +125,17 @@ def run_case(case):
                 val, info = nd.directionaldiff(lambda z: F(np.ravel(z)), X0m, Vm, method=method, order=order, full_output=True)
             else:
                 val, info = nd.directionaldiff(F, np.array(x0), v, method=method, order=order, full_output=True)
+            # "any non-zero v of the same size as x": the same direction given in another shape (a column, a flat vector for a matrix x,
+            # a python list) is the same direction
+            alts = []
+            if n >= 2:
+                alts.append(('column v', nd.directionaldiff(F, np.array(x0), v.reshape(n, 1), method=method, order=order)))
+                alts.append(('list v', nd.directionaldiff(F, list(x0), [float(t) for t in v], method=method, order=order)))
+            if n % 2 == 0 and n >= 4:
+                alts.append(('flat v, matrix x', nd.directionaldiff(lambda z: F(np.ravel(z)), np.array(x0).reshape(2, n // 2), v, method=method, order=order)))
+            bad = [nm for nm, a_ in alts if np.shape(a_) != () or not abs(float(a_) - float(val)) <= 1e-9 * max(1.0, abs(float(val)))]
+            if bad:
+                return ('raise', 'DirectionShape: directionaldiff with %s gives %r, with v shaped like x %r' % (bad[0], [np.asarray(a_).tolist() for nm, a_ in alts if nm == bad[0]][0], float(val)))
             return ('ok', float(val), list(v), float(np.max(info.error_estimate)))
         if mode == 'nested':
             g = multi.comp_fun(rec['comps'][0], x0)
